@@ -21,6 +21,19 @@ BUFS = [65536, 4096]
 STYLES = ["ff", "00", "probe", "alt55aa", "random"]
 MAXLEN = 4096
 FLOOR = 102      # pre-negotiation default fragment size 100 + 2 bytes of data header
+
+
+def _load_capacity():
+    """Per (qtype codec name buffer): the largest payload length known to fit that answer format, i.e. delivered exactly
+    by a tree on which the property held over every length (checks/c09_capacity.json, committed, never written at run time)."""
+    import json
+    try:
+        return json.load(open(os.path.join(os.path.dirname(os.path.abspath(__file__)), "c09_capacity.json")))["capacity"]
+    except (OSError, ValueError, KeyError):
+        return {}
+
+
+BASE_CAPACITY = _load_capacity()
 # iodine.o / iodined.o are NOT linked: their text is compiled through the two #include drivers
 OBJS = ["dns", "read", "encoding", "base32", "base64", "base64u", "base128", "common", "login", "md5",
         "tun", "user", "fw_query"]
@@ -93,6 +106,8 @@ def run(ctx):
         "Space: qtype in NULL PRIVATE TXT SRV MX CNAME A x codec in T S U V R (all 35; R falls back to Base32 for the "
         "hostname types, NULL/PRIVATE ignore the codec: same oracle) x 2 names x 2 buffers x contents {all-0xFF, "
         "all-0x00, the server's probe pattern with seeded start, 0x55/0xAA, seeded random} x lengths %s (%d lengths). "
+        "'Fits the answer format' is made concrete by a committed table of lengths known to be deliverable exactly per "
+        "(qtype, codec, name, buffer): the smallest non-exact length must lie above it. "
         "distinct_nontrivial = distinct measured '<qtype> <codec> <name> buf<size> exact_max=<largest exact length, "
         "bucketed to 64> [prefix-seen] [nothing-seen]' classes, aggregated over the shards."
         % (FLOOR, "2..4096, every one" if dense_hi == MAXLEN else
@@ -213,6 +228,17 @@ def run(ctx):
                                         dict(wit, length=m_, extracted=g["nonexact_min_rl"],
                                              driver_output="qtype=%s codec=%s n=%d style=%s name=%s buf=%d rl=%d"
                                                            % (qt, cd, m_, st, nk, bs, g["nonexact_min_rl"])))
+                        fits = BASE_CAPACITY.get("%s %s %s buf%d" % (qt, cd, nk, bs))
+                        if fits is not None:
+                            res.evaluations += 1
+                            if m_ and m_ <= fits:
+                                res.violate("C09:%s:%s:fits-but-not-exact" % (qt, cd),
+                                            "%s codec %s (%s name, %d-byte buffer, %s content): a payload of %d bytes fits this answer format "
+                                            "(lengths up to %d are known to be deliverable exactly) but the client extracted %d bytes"
+                                            % (qt, cd, nk, bs, st, m_, fits, g["nonexact_min_rl"]),
+                                            dict(wit, length=m_, known_to_fit_up_to=fits, extracted=g["nonexact_min_rl"],
+                                                 driver_output="qtype=%s codec=%s n=%d style=%s name=%s buf=%d rl=%d"
+                                                               % (qt, cd, m_, st, nk, bs, g["nonexact_min_rl"])))
                         maxes[st] = g["exact_max"]
                         if g["prefix"]:
                             flags.add("prefix-seen")
